@@ -81,3 +81,22 @@ var round11bExplanations = map[string]string{
 	"C17": " (R18) the store of regexRewrite is not guarded by len(pattern) > k with k >= 1.",
 	"C20": " (R6, static resources) redactedMosnConfig replaces RawStaticResources by the result of a redactor. (R7) a redaction placeholder is mentioned by some function reachable from conv.EnvoyConfigDump.",
 }
+
+// Clauses added in seeding round 12.
+var round12Explanations = map[string]string{
+	"C01": " (R17) the Reset of the bolt/boltv2 buffer contexts zeroes the pooled struct and restores no field from its old content.",
+	"C02": " (R19) every hijack API writes headers, data and trailers of the stored response on every path.",
+	"C03": " (R15) the receiver of OnResetStream(UpstreamGlobalTimeout) is loaded from downStream.upstreamRequest in the handler. (R16) proxy.onDownstreamEvent calls into the streams of the active list only with asMux held.",
+	"C05": " (R11) RemoveClusterHosts' binary search predicate is AddressString() >= addr and the Less it sorts with is AddressString() < AddressString().",
+	"C07": " (B2p) behind the store of the peeked byte into b[0] every return of mtls.Conn.Read counts it (per-path evaluation).",
+	"C10": " (TIMER) as C03.R15.",
+	"C11": " (O20) Mosn.TransferConnection calls network.SetTransferTimeout with the graceful timeout on every path.",
+	"C12": " (R15) the host list of a load assignment is built only by appending ConvertEndpointsConfig of each locality on every iteration of the loop over the localities.",
+	"C13": " (R19) the receiver of every x509 Verify under pkg/mtls is element 0 of the presented chain.",
+	"C14": " (R12) the filter and phase slices of a chain are only assigned append(itself, ..), an empty list or nil; no element is stored over.",
+	"C15": " (R16) the HostSet.Range callbacks of the subset builders return true on every path.",
+	"C17": " (R19) every Regexp.Replace* on the rewrite pattern within reach of finalizePathHeader is ReplaceAllString.",
+	"C18": " (W17) ordering comparisons of a size with dynamicTable.maxSize are > or <= only.",
+	"C19": " (R14) as C12.R7: every configured virtual host is appended in configuration order and the index recorded for its domains is its configuration position.",
+	"C20": " (R8) every result of redactRawJSON is its parameter, a constant or the output of json.Marshal.",
+}
